@@ -1,15 +1,18 @@
+//! Checks on p2panda-auth: C31 (convergence), C32 (merge laws), C33 (authorisation).
 use explorer::{Args, Report};
+
+mod c31;
+mod model;
 
 fn main() {
     let args = Args::parse();
     explorer::quiet_panics();
     let code = match args.property.as_str() {
-        // "Cxx" => cxx::run(Report::new(&args, "model_checking")),
+        "C31" => c31::run(Report::new(&args, "model_checking")),
         other => {
             eprintln!("vh-auth: unknown property {other}");
             2
         }
     };
-    let _ = Report::new(&args, "model_checking");
     std::process::exit(code);
 }
